@@ -105,10 +105,17 @@ def check(ctx):
     os.symlink("/usr/local", os.path.join(W, "lnk_usr"))
     os.symlink("/", os.path.join(W, "lnk_root"))
     os.symlink(os.path.join(W, "lnk_etc"), os.path.join(W, "real", "lnk2"))     # link to a link
+    # relative link targets that pass THROUGH another link and climb out of it with `..` (the kernel applies
+    # `..` to where the link led, a lexical join applies it to the spelling), ending inside / outside
+    os.symlink("lnk_etc/../etc/newdb", os.path.join(W, "lnk_via"))            # physically /etc/newdb
+    os.symlink("lnk_usr/../../etc", os.path.join(W, "lnk_via2"))              # /usr/local -> /usr -> / -> /etc
+    os.symlink("real/../lnk_etc/ssl", os.path.join(W, "lnk_via3"))            # /etc/ssl
+    os.symlink("lnk_etc/../tmp/vf_c20_x", os.path.join(W, "lnk_out"))         # physically /tmp/vf_c20_x: outside
+    os.symlink("../lnk_via", os.path.join(W, "real", "lnk_via4"))             # a link to such a link
     if sacrificed:
         os.symlink(sacrifice, os.path.join(W, "lnk_sac"))
     rel_pool = [".", "..", "real", "sub", "lnk_etc", "lnk_real", "lnk_up", "lnk_usr", "lnk_root", "lnk2", "missing",
-                "newdb", "etc", "etcetera", "usr", "ssl", "bin", "local"]
+                "lnk_via", "lnk_via2", "lnk_via3", "lnk_out", "lnk_via4", "newdb", "etc", "etcetera", "usr", "ssl", "bin", "local"]
     abs_pool = ["etc", "etcetera", "usr", "usrlocal", "local", "root", "rootfs", "bin", "binx", "sbin", "boot",
                 "bootx", "tmp", "var", "..", ".", "missing", "ssl", "passwd", "share", "lib"]
     maxlen = 4 if thorough else 3
